@@ -15,7 +15,7 @@ var nodeAccessors = []string{
 	"scheduler.(*Node).setStatus", "scheduler.(*Node).State", "scheduler.(*Node).Data", "scheduler.(*Node).signal",
 	"scheduler.(*Node).cancel", "scheduler.(*Node).setErr", "scheduler.(*Node).SetError", "scheduler.(*Node).incRetryCount",
 	"scheduler.(*Node).getRetryCount", "scheduler.(*Node).incDoneCount", "scheduler.(*Node).setRetriedAt", "scheduler.(*Node).finish",
-	"scheduler.(*Node).setup", "scheduler.(*ExecutionGraph).NodeData",
+	"scheduler.(*Node).setup", "scheduler.(*Node).teardown", "scheduler.(*ExecutionGraph).NodeData",
 }
 var schedAccessors = []string{
 	"scheduler.(*Scheduler).isCanceled", "scheduler.(*Scheduler).setCanceled", "scheduler.(*Scheduler).setLastError",
@@ -263,7 +263,7 @@ func crashKeyGeneric(caseDesc, output string) (string, string) {
 }
 
 func init() {
-	full := GenOpts{MaxN: 6, Retries: true, Preconds: true, ContinueOn: true, Failures: true, MaxActive: true, Delay: true, Outputs: true, RetryMsProb: 5}
+	full := GenOpts{MaxN: 6, Retries: true, Preconds: true, ContinueOn: true, Failures: true, MaxActive: true, Delay: true, Outputs: true, SharedPrec: true, TeardownFail: true, RetryMsProb: 5}
 	c01 := &dagFamily{prop: "C01", gen: full, nontrivial: func(spec *vexec.CaseSpec, out *vexec.Outcome, obl int64) bool {
 		ex := out.Executions()
 		for _, s := range spec.Steps {
